@@ -2,11 +2,10 @@
 (* E1 + E2 for C10: TLC enumerates the tree pairs (s, t, extras) with t reachable from a start tree s by at most
    MaxEdits edits (rename, reparent, swap of two sibling names, kind change, content change, exec-bit change, add,
    delete, an unversioned file dropped into a directory), checks the design laws of TreeDiff on every pair and every
-   path filter of the family (non-empty sets of at most MaxFilter paths of either tree, and the set of all paths), and
+   path filter of the family (non-empty sets of at most MaxFilter paths of either tree, the set of all paths, and that set without the root), and
    exports the pairs.  Start trees: every parent-closed subset of the ids at their home positions (Starts = "all") or
    only the full tree and the trees lacking one id (Starts = "few").
-   The pairs are the states of a little machine (one edit per step, never leaving the exported set), so that TLC checks
-   the laws once per pair and in parallel. *)
+   One state pair per (s, t, extras); see the note at the variables. *)
 EXTENDS TreeDiff, Json, IOUtils, SequencesExt
 CONSTANTS MaxEdits, Starts, MaxFilter
 
@@ -36,20 +35,24 @@ Reach(S, n) == IF n = 0 THEN S ELSE Reach(S \cup UNION {StepsOf(x) : x \in S}, n
 Pairs == UNION {{[s |-> s, t |-> x[1], tx |-> x[2]] : x \in Reach({<<s, {}>>}, MaxEdits)} : s \in StartTrees}
 
 PathUnion(pp) == (Paths(pp.s) \cup Paths(pp.t)) \cup {<<>>}
-FilterFamily(P) == {F \in SUBSET P : Cardinality(F) <= MaxFilter /\ F # {}} \cup {P}
+FilterFamily(P) == ({F \in SUBSET P : Cardinality(F) <= MaxFilter} \cup {P, P \ {<<>>}}) \ {{}}
 Query(pp, f, iu, wu) == [s |-> pp.s, t |-> pp.t, tx |-> SetToSeq(pp.tx), f |-> f, iu |-> iu, wu |-> wu]
 SpecObs(q) == LET r == SetToSeq(SpecOut(q, FALSE)) w == SetToSeq(SpecOut(q, TRUE))
               IN [chk |-> r, inv |-> r, old |-> r, ds |-> w, wt |-> w]
 
-VARIABLE p
-Init == p \in {[s |-> s, t |-> s, tx |-> {}] : s \in StartTrees}
-Next == \E x \in StepsOf(<<p.t, p.tx>>) : /\ p' = [s |-> p.s, t |-> x[1], tx |-> x[2]]
-                                           /\ p' \in Pairs
+\* The pairs are computed once (TLCSet in an ASSUME publishes the value to every worker).  Every pair is an initial
+\* state with ph = 0; its only step sets ph = 1, and the laws are evaluated there - so the (sequential) computation of
+\* the initial states stays cheap and the law checks run on all workers.
+ASSUME TLCSet(1, Pairs)
+AllPairs == TLCGet(1)
+VARIABLES p, ph
+Init == p \in AllPairs /\ ph = 0
+Next == ph = 0 /\ ph' = 1 /\ p' = p
 \* the complete law text (as the trace module applies it) on the expected output of a few representative queries
 FullQueries(pp) == {Query(pp, <<"all">>, TRUE, TRUE), Query(pp, <<"all">>, FALSE, FALSE),
                     Query(pp, <<"only", SetToSeq(PathUnion(pp) \ {<<>>})>>, TRUE, TRUE)}
-LawsHoldOnSpec ==
-    /\ ValidTree(p.s) /\ ValidTree(p.t) /\ p \in Pairs
+LawsHoldOnSpec == ph = 1 =>
+    /\ ValidTree(p.s) /\ ValidTree(p.t)
     \* the declarative core, stated directly: Diff and Apply are inverse; the filter rule yields parent-complete deltas
     \* that contain every change inside the filter
     /\ Apply(p.s, Diff(p.s, p.t), p.t) = p.t
@@ -60,14 +63,14 @@ LawsHoldOnSpec ==
                                  /\ GitFailed(q, [rt |-> SetToSeq(GitSpecOut(q))]) = {}
                                  /\ DriftKeys(q, SpecObs(q)) = {}
 \* anti-vacuity witnesses: TLC must find these states
-WitnessParentsRule == ~(\E F \in FilterFamily(PathUnion(p)) :
+WitnessParentsRule == ~(ph = 1 /\ \E F \in FilterFamily(PathUnion(p)) :
                           \E c \in Restrict(p.s, p.t, F) : c.id \notin Selected(p.s, p.t, F))
 WitnessDirRenameChild == ~(\E i \in Versioned(p.s) : p.s[i] = p.t[i] /\ Path(p.s, i) # Path(p.t, i))
 WitnessSwap == ~(\E i, j \in Versioned(p.s) : i # j /\ p.t[i].v /\ p.t[j].v /\ Path(p.s, i) = Path(p.t, j) /\ Path(p.s, j) = Path(p.t, i))
 WitnessKindChange == ~(\E i \in Versioned(p.s) : p.t[i].v /\ p.s[i].kind # p.t[i].kind)
 WitnessExtras == ~(p.tx # {} /\ p.s # p.t)
 \* the filter rule guarantees parents, not unique names: a filtered delta can put an entry on a still-occupied name
-WitnessNameCollision == ~(\E F \in FilterFamily(PathUnion(p)) : ~NamesUnique(Apply(p.s, Restrict(p.s, p.t, F), p.t)))
-Export == JsonSerialize(IOEnv.VF_OUT, SetToSeq({[s |-> x.s, t |-> x.t, tx |-> SetToSeq(x.tx), paths |-> SetToSeq(PathUnion(x))] : x \in Pairs}))
+WitnessNameCollision == ~(ph = 1 /\ \E F \in FilterFamily(PathUnion(p)) : ~NamesUnique(Apply(p.s, Restrict(p.s, p.t, F), p.t)))
+Export == JsonSerialize(IOEnv.VF_OUT, SetToSeq({[s |-> x.s, t |-> x.t, tx |-> SetToSeq(x.tx), paths |-> SetToSeq(PathUnion(x))] : x \in AllPairs}))
 ASSUME IF "VF_OUT" \in DOMAIN IOEnv THEN Export ELSE TRUE
 =============================================================================
